@@ -80,17 +80,23 @@ func vrFreeRun(w *vrWorld, cfg vrFreeCfg, id int) (out vrPathOut) {
 		c.mu.Lock()
 		tip := c.chain[len(c.chain)-1]
 		nchain, fh := len(c.chain), c.fh
+		held := c.held != nil
 		c.mu.Unlock()
-		for b := 1; b < w.u.NB; b++ {
-			if w.u.Parent[b] == tip {
-				cs = append(cs, choice{"Extend", b, 1.2})
+		if held {
+			// the block manager is blocked in its send: no further chain event
+			cs = append(cs, choice{"Emit", -1, 3})
+		} else {
+			for b := 1; b < w.u.NB; b++ {
+				if w.u.Parent[b] == tip {
+					cs = append(cs, choice{"Extend", b, 1.2})
+				}
 			}
-		}
-		if w.u.Lag && fh < nchain-1 {
-			cs = append(cs, choice{"AddFH", -1, 2.5})
-		}
-		if nchain > 1 {
-			cs = append(cs, choice{"Rollback", -1, 0.8})
+			if w.u.Lag && fh < nchain-1 {
+				cs = append(cs, choice{"AddFH", -1, 2.5})
+			}
+			if nchain > 1 {
+				cs = append(cs, choice{"Rollback", -1, 0.8})
+			}
 		}
 		// Updates are sent while the goroutine is inside a chain-source call
 		// (they wait in the channel): sent into a select they would race
@@ -137,6 +143,14 @@ func vrFreeRun(w *vrWorld, cfg vrFreeCfg, id int) (out vrPathOut) {
 		case "Extend", "AddFH", "Rollback":
 			a := vrAct{Op: pick.kind, Res: "ok", B: pick.b}
 			if err := x.envAct(&a); err != nil {
+				out.Error = err.Error()
+				return
+			}
+			x.step(&out, a)
+
+		case "Emit":
+			a := vrAct{Op: "Emit", Res: "conn", B: -1}
+			if err := x.emitHeld(&a); err != nil {
 				out.Error = err.Error()
 				return
 			}
